@@ -128,6 +128,9 @@ type serverConn struct {
 	maxIdleTimer    *time.Timer
 
 	closer chan struct{}
+	// closeOnce guards closer: the idle timer can be armed again by a request
+	// that is being handled while it fires, and would close it a second time.
+	closeOnce sync.Once
 
 	debug  bool
 	logger fasthttp.Logger
@@ -138,7 +141,7 @@ func (sc *serverConn) closeIdleConn() {
 	if sc.debug {
 		sc.logger.Printf("Connection is idle. Closing\n")
 	}
-	close(sc.closer)
+	sc.closeOnce.Do(func() { close(sc.closer) })
 }
 
 func (sc *serverConn) Handshake() error {
